@@ -403,3 +403,112 @@ Proof.
     + destruct (cf_missing cf) as [fn|]; cbn [map flat_map app fst snd fault_of_mreport ucalls_of_mreport];
         rewrite ?map_app, ?flat_map_app; cbn [map flat_map app fst snd]; rewrite IH1, IH2; split; reflexivity.
 Qed.
+
+(** a member that fills a field and has no value carries a fault *)
+Lemma member_wf cfs d l kv i :
+  Forall child_ref cfs ->
+  fst (s_member (spfields_of cfs) d l kv) = Some i ->
+  s_out (snd (s_member (spfields_of cfs) d l kv)) = None ->
+  s_faults (snd (s_member (spfields_of cfs) d l kv)) <> [].
+Proof.
+  intros Hch. destruct kv as [k v]. rewrite s_member_unfold.
+  pose proof (find_correspond cfs k 0) as Hfc.
+  destruct (find_field (rfields_of cfs) k 0) as [[i' rf]|] eqn:Eff;
+    destruct (sp_find (spfields_of cfs) k 0) as [[j sf]|] eqn:Esf; try contradiction.
+  - destruct Hfc as [<- (cf & Hin & -> & ->)]. rewrite Forall_forall in Hch.
+    pose proof (ref_wf _ _ (Hch cf Hin 0%N v (Key k l))) as [Hw1 Hw2].
+    cbn [sp_run sp_from fst snd]. intros _.
+    destruct (s_out (spec (cf_ty cf) v (Key k l))) as [x|] eqn:Eo.
+    + destruct (cf_from cf) as [|fn|fn]; cbn [s_out s_faults]; try discriminate.
+      * rewrite Eo. discriminate.
+      * destruct (ufail x); cbn [s_out s_faults]; discriminate.
+    + intros _ Hnil. destruct (Hw1 Hnil) as [o Ho]. congruence.
+  - cbn [fst]. discriminate.
+Qed.
+
+Lemma set_nth_In {A} (x : A) : forall l n y, In y (set_nth n x l) -> y = x \/ In y l.
+Proof.
+  induction l as [|z l IH]; intros n y H; [destruct n; destruct H|].
+  destruct n; cbn [set_nth] in H; destruct H as [H|H].
+  - left; symmetry; exact H.
+  - right; right; exact H.
+  - right; left; exact H.
+  - destruct (IH n y H) as [E|E]; [left; exact E|right; right; exact E].
+Qed.
+
+Lemma fold_apply_no_err members :
+  (forall m, In m members -> fst m <> None -> state_of_result (snd m) <> FErr) ->
+  forall sts, (forall st, In st sts -> st <> FErr) ->
+  forall st, In st (fold_left apply_member members sts) -> st <> FErr.
+Proof.
+  induction members as [|m members IH]; intros Hm sts Hsts st Hin; cbn [fold_left] in Hin; [apply Hsts; exact Hin|].
+  apply (IH (fun m' Hin' => Hm m' (or_intror Hin')) (apply_member sts m)); [|exact Hin].
+  intros st' Hin'. destruct m as [[i|] r]; [rewrite apply_member_some in Hin'|rewrite apply_member_none in Hin'; apply Hsts; exact Hin'].
+  destruct (set_nth_In _ _ _ _ Hin') as [->|Hold]; [|apply Hsts; exact Hold].
+  apply (Hm (Some i, r)); [left; reflexivity|discriminate].
+Qed.
+
+Lemma expected_missing_nil l : forall fs sts,
+  List.length fs = List.length sts -> expected_missing l fs sts = [] -> forall st, In st sts -> st <> FMissing.
+Proof.
+  induction fs as [|f fs IH]; intros sts Hlen Hnil st Hin; destruct sts as [|st0 sts]; try discriminate; [destruct Hin|].
+  unfold expected_missing in Hnil. cbn [combine flat_map fst snd] in Hnil. fold (expected_missing l fs sts) in Hnil.
+  apply app_eq_nil in Hnil. destruct Hnil as [H0 Hr]. destruct Hin as [<-|Hin].
+  - intros ->. destruct (rf_missing f); discriminate.
+  - apply (IH sts); [cbn in Hlen; lia|exact Hr|exact Hin].
+Qed.
+
+Lemma member_faults_nil_in members m : member_faults members = [] -> In m members -> s_faults (snd m) = [].
+Proof.
+  unfold member_faults. induction members as [|m0 members IH]; intros H Hin; [destruct Hin|].
+  cbn [flat_map] in H. apply app_eq_nil in H. destruct H as [H0 Hr]. destruct Hin as [<-|Hin]; [exact H0|apply IH; assumption].
+Qed.
+
+(** the construction items of both sides when every field state is a value *)
+Definition toF (it : string * out * option N) : string * fstate * option N := (fst (fst it), FSome (snd (fst it)), snd it).
+Definition toS (it : string * out * option N) : string * option out * option N := (fst (fst it), Some (snd (fst it)), snd it).
+
+Lemma items_correspond : forall cfs sts vals,
+  Forall2 (fun st ov => st = state_of_value ov) sts vals ->
+  List.length sts = List.length cfs ->
+  (forall st, In st sts -> exists o, st = FSome o) ->
+  exists v3,
+    map (fun p => (rf_name (fst p), snd p, rf_map (fst p))) (combine (rfields_of cfs) sts) = map toF v3
+    /\ map (fun p : spfield * option (option out) =>
+              (sp_name (fst p), match snd p with Some (Some o) => Some o | _ => None end, sp_map (fst p)))
+           (combine (spfields_of cfs) vals) = map toS v3.
+Proof.
+  induction cfs as [|cf cfs IH]; intros sts vals HF Hlen Hall.
+  - exists []. destruct sts; [|discriminate]. split; reflexivity.
+  - destruct sts as [|st sts]; [discriminate|]. inversion HF as [|? ov ? vals' Hst Hrest]; subst.
+    destruct (IH sts vals' Hrest) as (v3 & H1 & H2); [cbn in Hlen; lia|intros st Hin; apply Hall; right; exact Hin|].
+    destruct (Hall _ (or_introl eq_refl)) as [o Ho].
+    destruct ov as [[o'|]|]; cbn [state_of_value] in Ho; try discriminate. inversion Ho; subst o'.
+    exists ((cf_name cf, o, cf_map cf) :: v3).
+    cbn [rfields_of spfields_of map combine]. fold (rfields_of cfs). fold (spfields_of cfs).
+    cbn [fst snd rf_name rf_map sp_name sp_map state_of_value]. rewrite H1, H2. split; reflexivity.
+Qed.
+
+Definition spec_outs (items : list (string * option out * option N)) :=
+  map (fun it : string * option out * option N => match it with
+                     | (n, Some o, Some fn) => (n, Some (OFn fn o), [(fn, [AOut o])])
+                     | (n, Some o, None) => (n, Some o, [])
+                     | (n, None, _) => (n, None, [])
+                     end) items.
+
+Lemma spec_outs_values v3 :
+  all_some (map (fun x => snd (fst x)) (spec_outs (map toS v3))) = Some (map snd (map built_field v3))
+  /\ map (fun x => fst (fst x)) (spec_outs (map toS v3)) = map fst (map built_field v3)
+  /\ flat_map snd (spec_outs (map toS v3)) = trace_ucalls (flat_map built_calls v3).
+Proof.
+  induction v3 as [|[[n o] m] v3 (IH1 & IH2 & IH3)]; [repeat split|].
+  cbn [map toS spec_outs fst snd]. fold (spec_outs (map toS v3)).
+  destruct m as [fn|]; cbn [all_some map fst snd flat_map built_field built_calls app];
+    rewrite IH1, IH2, ?trace_ucalls_app, IH3; repeat split.
+Qed.
+
+Lemma combine_fst_snd {A B} (l : list (A * B)) : combine (map fst l) (map snd l) = l.
+Proof. induction l as [|[a b] l IH]; [reflexivity|]. cbn. rewrite IH. reflexivity. Qed.
+
+Lemma trace_faults_built v3 : trace_faults (flat_map built_calls v3) = [].
+Proof. induction v3 as [|[[n o] [fn|]] v3 IH]; cbn; auto. Qed.
